@@ -222,6 +222,23 @@ inductive Route
   | final
 deriving DecidableEq, Repr
 
+/-- how one argument of a call gets its v-table pointer: `virtual_<T&>` through the policy's lookup of
+    the dynamic type id, `virtual_ptr` from the pointer it carries; `e = ((kind, id), position)` -/
+def PState.argLookup (s : PState) (inst : Installed) (route : Route) (pre : List (Nat × VPtr))
+    (e : (Kind × Nat) × Nat) : Except CallErr (Kind × Int) :=
+  match e.1.1 with
+  | .virt => do
+    let sl ← lookupVptr s.cfg s.pub e.1.2
+    let v ← slotVptr inst sl
+    pure (e.1.1, v)
+  | .vptr => do
+    let vp ← match pre.find? (fun x => x.1 == e.2) with
+      | some x => pure x.2
+      | none => if route == .final then s.mkFinal e.1.2 else s.mkVPtr e.1.2
+    let v ← s.derefVPtr inst vp
+    pure (e.1.1, v)
+  | .nonvirt => pure (e.1.1, (0 : Int))
+
 /-- a call through `method::operator()`: `args` pairs each parameter kind with the dynamic type
     id of the argument; `virtual_ptr` arguments are built on the spot by `route`, or taken from
     `pre` (position ↦ an existing `virtual_ptr`) -/
@@ -232,19 +249,7 @@ def PState.callWith (s : PState) (key : Nat) (args : List (Kind × Nat)) (route 
     match (List.zipIdx c.methods).find? (fun e => e.1.key == key) with
     | none => .raised (.fault "no such method")
     | some (m, mi) =>
-      let lookups : Except CallErr (List (Kind × Int)) := (List.zipIdx args).mapM (fun ((k, id), pos) =>
-        match k with
-        | .virt => do
-          let sl ← lookupVptr s.cfg s.pub id
-          let v ← slotVptr inst sl
-          pure (k, v)
-        | .vptr => do
-          let vp ← match pre.find? (fun e => e.1 == pos) with
-            | some e => pure e.2
-            | none => if route == .final then s.mkFinal id else s.mkVPtr id
-          let v ← s.derefVPtr inst vp
-          pure (k, v)
-        | .nonvirt => pure (k, (0 : Int)))
+      let lookups : Except CallErr (List (Kind × Int)) := (List.zipIdx args).mapM (s.argLookup inst route pre)
       match lookups with
       | .error e => .raised e
       | .ok vargs =>
